@@ -8,6 +8,8 @@ From Gigue Require Import Types Bits Isa IsaProofs Enc EncProofs GenTables Build
   Machine MachineLemmas ImageSem GenWF GenWFProps SliceLemmas GenWF2 GenWF3 GenWF4 GenWF2Props SplitProofs
   BodyExec BodyBridge GenWF5 FrameExec CodeMem SwitchExec GenWF6 GenWF7 GenWF8 GenWF9 Walk CallFrame MethodContract
   SaveRestore TrampExec TrampsInv TrampStubs WholeImage Loader CallFrameRimi MethodContractRimi WholeImageRimi.
+From Gigue Require Import Hits.
+From Coq Require Import Permutation.
 Import ListNotations.
 Open Scope list_scope.
 Open Scope Z_scope.
@@ -97,6 +99,57 @@ Proof.
 Qed.
 
 (* PROPERTY C01 / C09 over the emitted files, RIMI shadow-stack variant *)
+Lemma rimiss_image_from_files_h pro epi shuffled calls hs :
+  base_prologue 10 0 true = OK pro -> base_epilogue 10 0 true = OK epi -> Permutation (im_elements img) shuffled ->
+  chain_h c (im_methods img) (jit_start_al c) shuffled (int_start_al c + zlen pro * 4) calls hs -> im_int_instrs img = pro ++ calls ++ epi ->
+  (forall r o, In (r, o) int_slots -> 0 <= rget s0 r < W64) ->
+  Forall2 rhit_ok shuffled hs /\ exists s',
+    run (gv c) L (12 + (rchain_cost img (combine shuffled hs) + 13)) s0 = (Next s', (12 + (rchain_cost img (combine shuffled hs) + 13))%nat) /\
+    pc s' = halt_at L /\
+    (forall r, 0 <= r -> wr c r = false -> ~ rclob c r -> rget s' r = rget s0 r) /\
+    rget s' 28 = ss_hi L /\
+    rmem_frame c L s0 s' (stk_hi L - rNtot c img) (stk_hi L) (ss_hi L - SSmax img) (ss_hi L) /\ dom s' = 0 /\ cfi s' = [].
+Proof.
+  intros Hpro Hepi Hperm Hch Hints Hsaved.
+  destruct (i_sp _ _ _ _ _ HI) as (Hsp & Hsal & Hbnd & Hslo & Hs64).
+  destruct (i_ra _ _ _ _ _ HI) as (Hra & Hhal & Hhr & _).
+  destruct (i_data _ _ _ _ _ HI) as (Hdr & _).
+  destruct (i_dom _ _ _ _ _ HI) as [Hdom Hcfi].
+  pose proof (i_ss _ _ _ _ _ HI) as Hssi. rewrite Hss in Hssi. destruct Hssi as (Hsp28 & Hssal & Hsspos & Hsshi & Hss64).
+  assert (Hspec : c_special_reg c = 28).
+  { destruct Hsucc as [Hc _]. unfold cfg_ok in Hc. apply andb_prop in Hc. destruct Hc as [Hc _]. apply andb_prop in Hc. destruct Hc as [Hc _].
+    apply andb_prop in Hc. destruct Hc as [_ Hrg]. unfold cfg_registers in Hrg. rewrite Hss in Hrg. cbn [is_protected] in Hrg.
+    apply andb_prop in Hrg. destruct Hrg as [_ Hsp']. apply andb_prop in Hsp'. destruct Hsp' as [Hsp' _]. apply Z.eqb_eq in Hsp'. exact Hsp'. }
+  rewrite Hspec in Hsp28.
+  pose proof (zlen_nonneg (im_ss img)) as Hzs.
+  assert (Hsm0 : 0 <= SSmax img) by (unfold SSmax; apply (fold_max_nonneg c)).
+  destruct (rimage_run_h c script img Hsucc Hss Hdr6 L rflat_placed rflat_placed2 s0) with (pro:=pro) (epi:=epi) (shuffled:=shuffled) (calls:=calls) (hs:=hs) as (Hhs & s' & R & P & Rg & M & D & Cf).
+  - rewrite Hsp. exact Hsal.
+  - rewrite Hsp. lia.
+  - rewrite Hsp. lia.
+  - rewrite Hsp. lia.
+  - exact Hsaved.
+  - rewrite Hsp28, Hsshi. pose proof (successful_ss_len c script img Hsucc) as Hz8. clear - Hssal Hz8. Z.div_mod_to_equations; lia.
+  - rewrite Hsp28. lia.
+  - rewrite Hsp28. lia.
+  - rewrite Hsp28. lia.
+  - exact Hpro.
+  - exact Hepi.
+  - exact Hperm.
+  - exact Hch.
+  - exact Hints.
+  - rewrite (i_pc _ _ _ _ _ HI). exact Hat.
+  - exact rflat_loaded.
+  - constructor; [exact Hdr|]. unfold gv. rewrite Hss. exact I.
+  - split; [exact Hhs|]. exists s'. split; [exact R|]. split.
+    + rewrite P, Hra, Z.add_0_r, u64_small by lia. clear - Hhal. Z.div_mod_to_equations; lia.
+    + split; [exact Rg|]. rewrite Hsp, Hsp28 in M. split.
+      * rewrite <- Hsp28.
+        destruct (rwr_facts c script img Hsucc (or_introl Hss) L rflat_placed) as (_ & _ & _ & _ & _ & _ & _ & _ & W28 & _).
+        apply Rg; [lia|exact W28|]. apply (rnclob_28 c script img Hsucc Hss).
+      * split; [exact M|]. split; congruence.
+Qed.
+
 Theorem rimiss_image_from_files :
   (forall r o, In (r, o) int_slots -> 0 <= rget s0 r < W64) ->
   exists s' eh, map fst eh = im_elements img /\ Forall (fun x => rhit_ok (fst x) (snd x)) eh /\
@@ -142,4 +195,28 @@ Proof.
 Qed.
 End FLATR.
 
+(* the same with the hit cases fixed BEFORE any layout or state: one list eh, a static datum of
+   the image, gives the executed-instruction count of every run *)
+Theorem rimiss_image_from_files_static c script img :
+  successful c script img -> c_variant c = GRimiSS -> c_data_reg c <> 6 ->
+  exists eh, map fst eh = im_elements img /\ Forall (fun x => rhit_ok (fst x) (snd x)) eh /\
+  forall L s0, Init c img (rNtot c img) L s0 -> code_lo L = int_start_al c ->
+    code_hi L - code_lo L < 2147483648 - 2048 -> pics_encodable img ->
+    SSmax img <= zlen (im_ss img) ->
+    (forall r o, In (r, o) int_slots -> 0 <= rget s0 r < W64) ->
+    exists s', run (gv c) L (rimage_steps img eh) s0 = (Next s', rimage_steps img eh) /\
+      pc s' = halt_at L /\
+      (forall r, 0 <= r -> wr c r = false -> ~ rclob c r -> rget s' r = rget s0 r) /\
+      rget s' 28 = ss_hi L /\
+      rmem_frame c L s0 s' (stk_hi L - rNtot c img) (stk_hi L) (ss_hi L - SSmax img) (ss_hi L) /\ dom s' = 0 /\ cfi s' = [].
+Proof.
+  intros Hs Hv H6.
+  destruct (static_hits c script img Hs) as (pro & epi & shuffled & calls & hs & eh & Hpro & Hepi & Hperm & Hch & Hints & E1 & E2 & Peh).
+  exists eh. split; [exact E1|]. split; [exact E2|].
+  intros L s0 HI Hat Hsm Hpe Hcap Hsaved.
+  destruct (rimiss_image_from_files_h c script img Hs Hv H6 L s0 HI Hat Hsm Hpe Hcap pro epi shuffled calls hs Hpro Hepi Hperm Hch Hints Hsaved) as (_ & s' & R & Rest).
+  exists s'. split; [|exact Rest]. unfold rimage_steps. rewrite <- (rchain_cost_perm c _ _ _ Peh). exact R.
+Qed.
+
 Print Assumptions rimiss_image_from_files.
+Print Assumptions rimiss_image_from_files_static.
